@@ -486,9 +486,14 @@ func cmdReplay(args []string) int {
 	ovJSON, _ := json.Marshal(map[string]interface{}{"Replace": overlay})
 	ovFile := filepath.Join(dir, "overlay.json")
 	os.WriteFile(ovFile, ovJSON, 0o644)
-	cmd := exec.Command("bash", "-c", fmt.Sprintf("ulimit -v 8000000; cd %s && go test -tags verif -overlay %s -vet=off -count=1 -timeout 60s -run '^TestGovcReplay$' -v ./%s 2>&1", repo, ovFile, contractDirs[pkg]))
+	cmd := exec.Command("bash", "-c", fmt.Sprintf("ulimit -v 8000000; cd %s && go test -tags verif -overlay %s -vet=off -count=1 -timeout 240s -run '^TestGovcReplay$' -v ./%s 2>&1", repo, ovFile, contractDirs[pkg]))
 	cmd.Env = append(os.Environ(), "GOFLAGS=-mod=mod", "GOPROXY=off", "GOSUMDB=off", "GOTOOLCHAIN=local")
 	out, _ := cmd.CombinedOutput()
 	fmt.Println(string(out))
+	if strings.Contains(string(out), "GOVC-VIOLATION") || strings.Contains(string(out), "panic: test timed out") || strings.Contains(string(out), "fatal error") {
+		fmt.Println("replay: the violation reproduces on this tree")
+		return 1
+	}
+	fmt.Println("replay: no violation on this tree")
 	return 0
 }
